@@ -166,7 +166,17 @@ def build(case):
             lines += render_op(ph, op, idx)
             positions.append((ph, op, idx))
             idx += 1
+        if case.get('fail_after') == ph:
+            # the last instruction of this phase fails: the phases up to [cleanup] are skipped, [cleanup] runs with
+            # the settings as they are at this point
+            lines.append('$ exit 3')
     return '\n'.join(lines) + '\n', positions
+
+
+def skipped_phases(case):
+    fa = case.get('fail_after')
+    order = ['setup', 'act', 'before-assert', 'assert']
+    return set(order[order.index(fa) + 1:]) if fa in order else set()
 
 
 def _read_env0(path):
@@ -228,8 +238,11 @@ def check(case) -> Verdict:
     if r.exception or r.timed_out:
         detail['exception'] = r.exception
         return fail('exception-or-timeout', detail)
-    if r.exit_code != 0 or start_pwd is None:
+    if r.exit_code != {None: 0, 'assert': 32}.get(case.get('fail_after'), 128) or start_pwd is None:
         return fail('generated-history-does-not-pass', detail)
+    skipped = skipped_phases(case)
+    if skipped:
+        labels.append('failing-step-then-cleanup:' + case['fail_after'])
     if r.cwd_changed is not None or r.env_diff is not None:
         return fail('process-state-leaked', detail)
     act_dir = start_pwd
@@ -239,6 +252,8 @@ def check(case) -> Verdict:
     nontrivial = False
     changed_phases = set()
     for ph in ['setup', 'act', 'before-assert', 'assert', 'cleanup']:
+        if ph in skipped:
+            continue
         if ph == 'act':
             env, cwd = act_obs
             if env is None:
@@ -362,7 +377,16 @@ def histories(draw, max_ops=14):
                 ops[ph].append(['probe'])
     # make sure something is observed late
     ops['cleanup'].append(['probe'])
-    return {'ops': ops, 'py_act': draw(st.integers(0, 7)) == 0}
+    case = {'ops': ops, 'py_act': draw(st.integers(0, 7)) == 0}
+    if draw(st.integers(0, 3)) == 0:
+        case['fail_after'] = draw(st.sampled_from(['setup', 'setup', 'before-assert', 'assert']))
+        # symbols whose definition is skipped do not exist in [cleanup] (what a reference to one does is another
+        # property's subject - KF-C18-5): such uses are dropped
+        lost = {o[1] for p in skipped_phases(case) if p in ops for o in ops[p] if o[0] == 'defpath'}
+        ops['cleanup'] = [o for o in ops['cleanup'] if not (o[0] == 'usepath' and o[1] in lost)]
+        if not any(o[0] in ('probe', 'pyprobe', 'usepath') for o in ops['cleanup']):
+            ops['cleanup'].append(['probe'])
+    return case
 
 
 # ---- the timeout takes effect for every later instruction and phase (cells and oracle shared with C19) ----------------
